@@ -8,8 +8,8 @@ import shutil
 import unicodedata
 from pathlib import Path, PurePosixPath
 
-from ..core import Op, canon_exc
-from .. import aoef, aoefgen, aoef_impl, leanio
+from ..core import Op, canon_exc, jkey
+from .. import aoef, aoefgen, leanio
 
 PROPERTY = "C18"
 LEAN_MODULE = "Proofs.C18"
@@ -121,31 +121,221 @@ def _converters():
     return (f, g) if callable(f) and callable(g) else None
 
 
-def _do_save(obj, target, audio_dir, how, api="io", fmt="aoef"):
-    """save `obj` to `target` by one of the public routes"""
-    ad = aoef_impl.adir(audio_dir, how)
-    if api == "aoef":
+class FsPath:
+    """a user-defined `os.PathLike` that is not a pathlib class: besides `str`, what `soundevent.data.PathLike`
+    (`Union[os.PathLike, str]`) admits"""
+
+    def __init__(self, s):
+        self._s = s
+
+    def __fspath__(self):
+        return self._s
+
+    def __repr__(self):
+        return f"FsPath({self._s!r})"
+
+
+DIR_KINDS_SAVE = ["str", "path", "fspath", "pure"]
+DIR_KINDS_LOAD = ["str", "path", "fspath"]     # a pure path as load directory is outside the quantifier: `dir / p` is then
+#                                                a PurePosixPath, which pydantic rejects as `Recording.path` today
+
+
+def _as_path(d, how="str"):
+    """a directory / a file name as the caller may pass it: `str`, `pathlib.Path`, `PurePosixPath`, or a
+    user-defined `os.PathLike`"""
+    if d is None:
+        return None
+    if how == "path":
+        return Path(d)
+    if how == "pure":
+        return PurePosixPath(d)
+    if how == "fspath":
+        return FsPath(d)
+    return d
+
+
+def _do_save(obj, target, audio_dir, how, api="io", fmt="aoef", target_as="str"):
+    """save `obj` to `target` by one of the public routes, keyword and positional"""
+    ad = _as_path(audio_dir, how)
+    tp = _as_path(target, target_as)
+    if api in ("aoef", "aoef_positional"):
         from soundevent.io import aoef as real
-        real.save(obj, target, audio_dir=ad)
-    elif api == "positional":
-        from soundevent import io
+        if api == "aoef":
+            real.save(obj, tp, audio_dir=ad)
+        else:
+            real.save(obj, tp, ad)
+        return
+    from soundevent import io
+    if api == "positional":
         io.save(obj, Path(target), ad)
+    elif api == "positional_full":
+        io.save(obj, tp, ad, fmt)
     else:
-        from soundevent import io
-        io.save(obj, target, audio_dir=ad, format=fmt)
+        io.save(obj, tp, audio_dir=ad, format=fmt)
 
 
-def _do_load(target, audio_dir, how, api="io", fmt="aoef", ty=None):
-    ad = aoef_impl.adir(audio_dir, how)
-    if api == "aoef":
+def _do_load(target, audio_dir, how, api="io", fmt="aoef", ty=None, target_as="str"):
+    ad = _as_path(audio_dir, how)
+    tp = _as_path(target, target_as)
+    if api in ("aoef", "aoef_positional"):
         from soundevent.io import aoef as real
-        return real.load(target, audio_dir=ad) if ty is None else real.load(target, audio_dir=ad, type=ty)
+        if api == "aoef_positional":
+            return real.load(tp, ad) if ty is None else real.load(tp, ad, ty)
+        return real.load(tp, audio_dir=ad) if ty is None else real.load(tp, audio_dir=ad, type=ty)
     from soundevent import io
     if api == "positional":
         return io.load(Path(target), ad)
+    if api == "positional_full":
+        return io.load(tp, ad, fmt) if ty is None else io.load(tp, ad, fmt, ty)
     if ty is not None:
-        return io.load(target, audio_dir=ad, format=fmt, type=ty)
-    return io.load(target, audio_dir=ad, format=fmt)
+        return io.load(tp, audio_dir=ad, format=fmt, type=ty)
+    return io.load(tp, audio_dir=ad, format=fmt)
+
+
+# ------------------------------------------------------------------ live objects: walking, construction paths, edits
+def _is_model(x):
+    return hasattr(type(x), "model_fields") and not isinstance(x, type)
+
+
+def _recording_class():
+    from soundevent import data
+    return data.Recording
+
+
+def _live_recordings(root):
+    """every `Recording` instance reachable from a live object through declared pydantic fields, each instance
+    once (by identity) -- whatever the classes in between are called (instances of user-defined subclasses of
+    the collection classes are walked like any other)"""
+    R = _recording_class()
+    seen, out, todo = set(), [], [root]
+    while todo:
+        x = todo.pop()
+        if isinstance(x, (list, tuple)):
+            todo.extend(x)
+            continue
+        if not _is_model(x) or id(x) in seen:
+            continue
+        seen.add(id(x))
+        if isinstance(x, R):
+            out.append(x)
+            continue
+        for name in type(x).model_fields:
+            todo.append(getattr(x, name, None))
+    return out
+
+
+def _live_paths(root):
+    """[[uuid, path], ...] of every recording reachable from a live object, sorted (observe_at: `Recording.path` of
+    every recording reachable from the loaded object)"""
+    out = {}
+    for r in _live_recordings(root):
+        out[str(r.uuid)] = str(PurePosixPath(os.fspath(r.path)))
+    return sorted([u, p] for u, p in out.items())
+
+
+def _snapshot(obj):
+    """the whole content of a live object as text: an argument must read the same before and after a call"""
+    try:
+        return obj.model_dump_json(warnings=False)
+    except TypeError:
+        return obj.model_dump_json()
+
+
+_SUBCLASSES = {}
+
+
+def _subclass_of(cls):
+    """a user-defined subclass of a collection class (one more field with a default, one more method), as a
+    project would write it: `class LabProject(data.AnnotationProject): ...`"""
+    if cls not in _SUBCLASSES:
+        _SUBCLASSES[cls] = type("Lab" + cls.__name__, (cls,), {
+            "__annotations__": {"lab_note": str}, "lab_note": "kept by the lab", "__module__": __name__,
+            "n_members": lambda self: sum(len(v) for v in vars(self).values() if isinstance(v, list))})
+    return _SUBCLASSES[cls]
+
+
+BUILD_HOWS = ["ctor", "validate", "validate_json", "deepcopy", "copy_deep", "subclass", "subclass_validate"]
+
+
+def _construct(cj, how="ctor", rec_path_as=None):
+    """the live collection carrying the content `cj`, by one of several construction paths:
+    ctor               constructors, objects with one uuid shared by reference (harness/aoef.py)
+    validate           `Cls.model_validate(obj.model_dump())`: every occurrence its own Python object
+    validate_json      `Cls.model_validate_json(obj.model_dump_json())`
+    deepcopy           `copy.deepcopy(obj)`
+    copy_deep          `obj.model_copy(deep=True)`
+    subclass           an instance of a user-defined subclass of the collection class, children shared
+    subclass_validate  the same through `Sub.model_validate(obj.model_dump())`
+    `rec_path_as="str"`: every `Recording.path` is a `str` afterwards (assignment is not validated) instead of
+    a `Path`.  A construction path that does not reproduce the recording paths of `cj` (a fault of the path
+    itself, not of save / load) falls back to the constructors."""
+    base = aoef.build(cj)
+    obj = base
+    try:
+        if how == "validate":
+            obj = type(base).model_validate(base.model_dump())
+        elif how == "validate_json":
+            obj = type(base).model_validate_json(base.model_dump_json())
+        elif how == "deepcopy":
+            obj = copy.deepcopy(base)
+        elif how == "copy_deep":
+            obj = base.model_copy(deep=True)
+        elif how == "subclass":
+            obj = _subclass_of(type(base))(**{f: getattr(base, f) for f in type(base).model_fields})
+        elif how == "subclass_validate":
+            obj = _subclass_of(type(base)).model_validate(base.model_dump())
+        if obj is not base and _live_paths(obj) != _live_paths(base):
+            obj = base
+    except leanio.InfraError:
+        raise
+    except Exception:  # noqa: BLE001
+        obj = base
+    if rec_path_as == "str":
+        for r in _live_recordings(obj):
+            r.path = os.fspath(r.path)
+    return obj
+
+
+def _copy_tree(x, f, memo):
+    """`model_copy(update=…)` all the way up: every recording `r` with `f(r)` not None is replaced by that copy,
+    every object that (transitively) holds a replaced one is replaced by `model_copy(update={field: new})`;
+    objects that hold none are kept; sharing is preserved"""
+    if isinstance(x, list):
+        ys = [_copy_tree(v, f, memo) for v in x]
+        return ys if any(a is not b for a, b in zip(ys, x)) else x
+    if not _is_model(x):
+        return x
+    if id(x) in memo:
+        return memo[id(x)][1]
+    if isinstance(x, _recording_class()):
+        y = f(x)
+        y = x if y is None else y
+    else:
+        upd = {}
+        for name in type(x).model_fields:
+            v = getattr(x, name, None)
+            w = _copy_tree(v, f, memo)
+            if w is not v:
+                upd[name] = w
+        y = x.model_copy(update=upd) if upd else x
+    memo[id(x)] = (x, y)
+    return y
+
+
+MOVE_HOWS = ["assign", "assign_str", "model_copy", "model_copy_str"]
+
+
+def _move(obj, src, dst, how):
+    """every recording of the live object at `src` is at `dst` afterwards -> the live object to go on with
+    (the same one after an assignment, a new one after `model_copy`)"""
+    hit = lambda r: PurePosixPath(os.fspath(r.path)) == PurePosixPath(src)
+    new = dst if how.endswith("_str") else Path(dst)
+    if how.startswith("assign"):
+        for r in _live_recordings(obj):
+            if hit(r):
+                r.path = new
+        return obj
+    return _copy_tree(obj, lambda r: r.model_copy(update={"path": new}) if hit(r) else None, {})
 
 
 def _rec_paths_of_data(data):
@@ -159,20 +349,38 @@ def _rec_paths_of_doc(path):
 SENTINEL = "{\"earlier\": \"content\"}\n"
 
 
+def _read_doc_paths(path):
+    """the recording entries of a written file -> {"val": ...}; a file that is not one JSON document (e.g. the
+    tail of an earlier, longer file left behind) is reported as such"""
+    try:
+        return {"val": _rec_paths_of_doc(path)}
+    except (ValueError, KeyError, TypeError, AttributeError) as e:
+        return {"val": None, "unreadable": repr(e)[:200]}
+
+
 def _stored_of(obj, inp):
-    """save one (already built) object as `inp` says -> the recording paths of the document | the failure"""
+    """save one (already built) object as `inp` says -> the recording paths of the document | the failure;
+    `mutated` when the call changed its argument"""
     api, fmt, pre = inp.get("api", "io"), inp.get("format", "aoef"), inp.get("pre")
-    conv = _converters() if api == "convert" else None
+    how = inp.get("dir_as", "str")
+    conv = _converters() if api in ("convert", "convert_positional") else None
+    snap = _snapshot(obj)
+
+    def done(out):
+        if _snapshot(obj) != snap:
+            out["mutated"] = True
+        return out
     if conv is not None:
         # the conversion step of `save` on its own (public `to_aeof`): no file is involved
         try:
-            doc = conv[0](obj, audio_dir=aoef_impl.adir(inp.get("audio_dir"), inp.get("dir_as", "str")))
-            return {"val": _rec_paths_of_data(json.loads(doc.model_dump_json(exclude_none=True))["data"])}
+            ad = _as_path(inp.get("audio_dir"), how)
+            doc = conv[0](obj, ad) if api == "convert_positional" else conv[0](obj, audio_dir=ad)
+            return done({"val": _rec_paths_of_data(json.loads(doc.model_dump_json(exclude_none=True))["data"])})
         except leanio.InfraError:
             raise
         except Exception as e:  # noqa: BLE001
-            return canon_exc(e)
-    if api == "convert":
+            return done(canon_exc(e))
+    if api in ("convert", "convert_positional"):
         api = "io"
     d = _fresh_dir()
     target = os.path.join(d, "doc.json")
@@ -180,21 +388,26 @@ def _stored_of(obj, inp):
         target = os.path.join(d, "not yet", "there", "doc.json")
     elif pre == "file":
         open(target, "w").write(SENTINEL)
+    elif pre == "longer":
+        # an earlier, much longer AOEF document at the same path
+        open(target, "w").write(json.dumps(aoef.aoef_file({"collection_type": "recording_set", "uuid": "0" * 32,
+                                                          "recordings": [], "padding": "x" * 200000})))
+    before = open(target).read() if pre in ("file", "longer") else None
     try:
         try:
-            _do_save(obj, target, inp.get("audio_dir"), inp.get("dir_as", "str"), api, fmt)
+            _do_save(obj, target, inp.get("audio_dir"), how, api, fmt, inp.get("target_as", "str"))
         except leanio.InfraError:
             raise
         except Exception as e:  # noqa: BLE001
             out = canon_exc(e)
             left = _listing(d)
-            if pre == "file" and os.path.exists(target) and open(target).read() == SENTINEL:
+            if before is not None and os.path.exists(target) and open(target).read() == before:
                 left = [f for f in left if f != "doc.json"]      # an earlier file, untouched
             out["file_written"] = bool(left)
             if left:
                 out["left_behind"] = left
-            return out
-        return {"val": _rec_paths_of_doc(target)}
+            return done(out)
+        return done(_read_doc_paths(target))
     finally:
         shutil.rmtree(d, ignore_errors=True)
 
@@ -202,7 +415,7 @@ def _stored_of(obj, inp):
 def _impl_stored(inp):
     """'path' of every entry of data.recordings in the written JSON; on failure: nothing may have been written"""
     try:
-        obj = aoef.build(inp["collection"])
+        obj = _construct(inp["collection"], inp.get("build", "ctor"), inp.get("rec_path_as"))
     except leanio.InfraError:
         raise
     except Exception as e:  # noqa: BLE001
@@ -226,6 +439,11 @@ def _want_stored(cj, A):
 
 
 def _judge_stored(inp, out, where=""):
+    if out.get("mutated"):
+        return f"{where}the save changed the object it was given (its content reads differently after the call)"
+    if out.get("unreadable"):
+        return (f"{where}the written file is not one JSON document ({out['unreadable']}): something of an earlier "
+                "file at the same path is still there")
     if out.get("file_written"):
         return (f"{where}saving failed but something was written in the target directory: "
                 f"{out.get('left_behind')}")
@@ -249,7 +467,7 @@ def _holds_stored(ctx, inp, out):
 
 
 def _cmp_sorted_val(inp, io, mo):
-    a = {k: v for k, v in io.items() if k not in ("trace", "file_written", "left_behind")}
+    a = {k: v for k, v in io.items() if k not in ("trace", "file_written", "left_behind", "mutated", "unreadable")}
     if "raise" in a and "raise" in mo:
         return None         # the property pins *that* saving fails, not the class of the error
     if "val" in mo:
@@ -282,23 +500,25 @@ def _impl_relocate(inp):
     """save under A, load under B (fresh file, fresh call): Recording.path of every reachable recording"""
     api, fmt = inp.get("api", "io"), inp.get("format", "aoef")
     how_s = inp.get("dir_as", "str")
-    how_l = inp.get("load_as", how_s)
+    how_l = inp.get("load_as") or ("str" if how_s == "pure" else how_s)
+    tas = inp.get("target_as", "str")
     d = None
     try:
-        obj = aoef.build(inp["collection"])
-        conv = _converters() if api == "convert" else None
+        obj = _construct(inp["collection"], inp.get("build", "ctor"), inp.get("rec_path_as"))
+        conv = _converters() if api in ("convert", "convert_positional") else None
         if conv is not None:
-            doc = conv[0](obj, audio_dir=aoef_impl.adir(inp.get("save_dir"), how_s))
+            sd, ld = _as_path(inp.get("save_dir"), how_s), _as_path(inp.get("load_dir"), how_l)
+            doc = conv[0](obj, sd) if api == "convert_positional" else conv[0](obj, audio_dir=sd)
             doc = type(doc).model_validate_json(doc.model_dump_json(exclude_none=True))
-            back = conv[1](doc, audio_dir=aoef_impl.adir(inp.get("load_dir"), how_l))
-            return {"val": _all_recordings(aoef.dump(back))}
-        if api == "convert":
+            back = conv[1](doc, ld) if api == "convert_positional" else conv[1](doc, audio_dir=ld)
+            return {"val": _live_paths(back)}
+        if api in ("convert", "convert_positional"):
             api = "io"
         d = _fresh_dir()
         target = os.path.join(d, "doc.json")
-        _do_save(obj, target, inp.get("save_dir"), how_s, api, fmt)
-        back = _do_load(target, inp.get("load_dir"), how_l, api, fmt, _load_type(inp))
-        return {"val": _all_recordings(aoef.dump(back))}
+        _do_save(obj, target, inp.get("save_dir"), how_s, api, fmt, tas)
+        back = _do_load(target, inp.get("load_dir"), how_l, api, fmt, _load_type(inp), tas)
+        return {"val": _live_paths(back)}
     except leanio.InfraError:
         raise
     except Exception as e:  # noqa: BLE001
@@ -392,7 +612,7 @@ def _impl_relocate_many(inp):
         outs = []
         for B, how in zip(loads, hows):
             try:
-                outs.append({"val": _all_recordings(aoef.dump(_do_load(target, B, how)))})
+                outs.append({"val": _live_paths(_do_load(target, B, how))})
             except leanio.InfraError:
                 raise
             except Exception as e:  # noqa: BLE001
@@ -441,7 +661,7 @@ def _impl_relocate_chain(inp):
         try:
             _do_save(obj, target, st.get("save_dir"), st.get("dir_as", "str"))
             obj = _do_load(target, st.get("load_dir"), st.get("load_as", "str"))
-            outs.append({"val": _all_recordings(aoef.dump(obj))})
+            outs.append({"val": _live_paths(obj)})
         except leanio.InfraError:
             raise
         except Exception as e:  # noqa: BLE001
@@ -464,6 +684,229 @@ def _holds_relocate_chain(ctx, inp, out):
             return None
         paths = nxt
     return None
+
+
+# ------------------------------------------------------------------ sessions: objects and files as state
+FILE_APIS = ["io", "io", "aoef", "positional", "positional_full", "aoef_positional"]
+
+
+def _poison(obj):
+    """the caller changes an object that a load returned, in place: every recording elsewhere, the last member
+    of every list of the collection gone"""
+    for r in _live_recordings(obj):
+        r.path = Path("/poisoned by the caller") / Path(os.fspath(r.path)).name
+    for name in type(obj).model_fields:
+        v = getattr(obj, name, None)
+        if isinstance(v, list) and v:
+            v.pop()
+
+
+def _impl_session(inp):
+    """a sequence of steps in one process over named live objects and named files in one directory:
+    put   a live object carrying `collection`, built by the construction path `how`
+    move  every recording of a live object at `src` is moved to `dst` (assignment / model_copy(update=...))
+    save  a live object to a file (the same file may be the target again and again)
+    load  a file into a live object
+    poison  the caller changes a loaded object in place
+    -> the output of every step; after every save / load every *other* file must hold what it held before, a
+    failing save must leave *every* file as it was, the saved object must read as before the call; at the end
+    every loaded object that was not touched must still read as when it was returned"""
+    d = _fresh_dir()
+    objs, outs, live, notes = {}, [], [], []
+
+    def fpath(f):
+        return os.path.join(d, f + ".json")
+
+    def files_state():
+        out = {}
+        for n in _listing(d):
+            with open(os.path.join(d, n), "rb") as fh:
+                out[n] = fh.read()
+        return out
+
+    def changed(before, allowed=()):
+        now = files_state()
+        return sorted(n for n in set(before) | set(now) if before.get(n) != now.get(n) and n not in allowed)
+    try:
+        for k, st in enumerate(inp["steps"]):
+            do = st.get("do")
+            try:
+                if do == "put":
+                    objs[st["obj"]] = _construct(st["collection"], st.get("how", "ctor"), st.get("rec_path_as"))
+                    out = {"val": _live_paths(objs[st["obj"]])}
+                elif do == "move":
+                    old = objs[st["obj"]]
+                    live = [x for x in live if x[1] is not old]
+                    objs[st["obj"]] = _move(old, st["src"], st["dst"], st.get("how", "assign"))
+                    out = {"val": _live_paths(objs[st["obj"]])}
+                elif do == "save":
+                    obj = objs[st["obj"]]
+                    before, snap = files_state(), _snapshot(obj)
+                    try:
+                        _do_save(obj, fpath(st["file"]), st.get("audio_dir"), st.get("dir_as", "str"), st.get("api", "io"),
+                                 st.get("format", "aoef"), st.get("target_as", "str"))
+                        out = _read_doc_paths(fpath(st["file"]))
+                    except leanio.InfraError:
+                        raise
+                    except Exception as e:  # noqa: BLE001
+                        out = canon_exc(e)
+                    ch = changed(before, (st["file"] + ".json",) if "val" in out else ())
+                    if ch:
+                        out["changed"] = ch
+                    if _snapshot(obj) != snap:
+                        out["mutated"] = True
+                elif do == "load":
+                    before = files_state()
+                    obj = _do_load(fpath(st["file"]), st.get("audio_dir"), st.get("dir_as", "str"), st.get("api", "io"),
+                                   st.get("format", "aoef"), st.get("type"), st.get("target_as", "str"))
+                    objs[st["into"]] = obj
+                    out = {"val": _live_paths(obj)}
+                    live.append((k, obj, out["val"]))
+                    ch = changed(before)
+                    if ch:
+                        out["changed"] = ch
+                elif do == "poison":
+                    obj = objs[st["obj"]]
+                    live = [x for x in live if x[1] is not obj]
+                    _poison(obj)
+                    out = None
+                else:
+                    out = None
+            except leanio.InfraError:
+                raise
+            except Exception as e:  # noqa: BLE001
+                out = canon_exc(e)
+                if out["raise"].startswith("crash:"):
+                    out["trace"] = repr(e)[:300]
+            outs.append(out)
+        for k, obj, first in live:
+            try:
+                now = _live_paths(obj)
+            except Exception as e:  # noqa: BLE001
+                now = canon_exc(e)
+            if now != first:
+                notes.append({"step": k, "first": first[:4], "now": now[:4] if isinstance(now, list) else now})
+        return {"steps": outs, "notes": notes}
+    finally:
+        shutil.rmtree(d, ignore_errors=True)
+
+
+def _norm_paths(pairs):
+    return {u: str(PurePosixPath(p)) for u, p in pairs}
+
+
+def _session_oracle(steps):
+    """the session by pathlib arithmetic on {uuid: path} maps alone: what every step must report
+    -> list of ("recs" | "stored", {uuid: path}) | ("fail",) | ("none",)"""
+    paths, files, want = {}, {}, []
+    for st in steps:
+        do = st.get("do")
+        if do == "put":
+            paths[st["obj"]] = _norm_paths(_all_recordings(st["collection"]))
+            want.append(("recs", dict(paths[st["obj"]])))
+        elif do == "move":
+            cur = paths.get(st["obj"])
+            if cur is None:
+                want.append(("fail",))
+                continue
+            src = PurePosixPath(st["src"])
+            cur = {u: (str(PurePosixPath(st["dst"])) if PurePosixPath(p) == src else p) for u, p in cur.items()}
+            paths[st["obj"]] = cur
+            want.append(("recs", dict(cur)))
+        elif do == "save":
+            cur = paths.get(st["obj"])
+            w = None if cur is None else _want_relocated(cur, st.get("audio_dir"), None)
+            if w is None:
+                want.append(("fail",))
+            else:
+                files[st["file"]] = w
+                want.append(("stored", dict(w)))
+        elif do == "load":
+            q = files.get(st["file"])
+            if q is None:
+                want.append(("fail",))
+            else:
+                paths[st["into"]] = _want_relocated(q, None, st.get("audio_dir"))
+                want.append(("recs", dict(paths[st["into"]])))
+        else:
+            if do == "poison":
+                paths.pop(st.get("obj"), None)
+            want.append(("none",))
+    return want
+
+
+def _step_text(st):
+    do = st.get("do")
+    if do == "put":
+        return f"put {st['obj']} ({st['collection']['type']}, built by {st.get('how', 'ctor')})"
+    if do == "move":
+        return f"move {st['src']!r} -> {st['dst']!r} in {st['obj']} by {st.get('how', 'assign')}"
+    if do == "save":
+        return f"save {st['obj']} -> {st['file']} under {st.get('audio_dir')!r}"
+    if do == "load":
+        return f"load {st['file']} under {st.get('audio_dir')!r} -> {st['into']}"
+    return str(do)
+
+
+def _holds_session(ctx, inp, io):
+    if not isinstance(io, dict) or "steps" not in io:
+        return f"the session driver failed: {jkey(io)[:200]}"
+    steps = inp["steps"]
+    want = _session_oracle(steps)
+    trail = []
+    for k, (st, w, out) in enumerate(zip(steps, want, io["steps"])):
+        trail.append(_step_text(st))
+        where = f"step {k + 1} of {len(steps)} in one process [{'; '.join(trail[-5:])}]: "
+        if w[0] == "none":
+            continue
+        out = out or {}
+        if out.get("changed"):
+            return where + f"files other than the target of a successful save changed: {out['changed']}"
+        if out.get("mutated"):
+            return where + "the save changed the object it was given"
+        if out.get("unreadable"):
+            return where + (f"the written file is not one JSON document ({out['unreadable']}): something of the file "
+                            "that was at the same path before is still there")
+        if w[0] == "fail":
+            if "val" in out:
+                if st.get("do") == "save":
+                    return where + f"a recording lies outside the audio directory {st.get('audio_dir')!r} but saving did not fail"
+                return where + "the step succeeded although the session has no such object / file"
+            continue
+        if "val" not in out:
+            return where + f"raised {out.get('raise')} ({str(out.get('trace', ''))[:120]}) where the property gives {w[0]} paths"
+        got = {u: p for u, p in out["val"]}
+        for u, p in w[1].items():
+            if got.get(u) != p:
+                what = "stored path" if w[0] == "stored" else "path"
+                return where + f"recording {u}: {what} {got.get(u)!r}, expected {p!r}"
+    for n in io.get("notes", []):
+        return (f"the object returned by the load at step {n['step'] + 1} changed after later steps "
+                f"(was {jkey(n['first'])[:160]} now {jkey(n['now'])[:160]})")
+    return None
+
+
+def _cmp_session(inp, io, mo):
+    outs = io.get("steps") if isinstance(io, dict) else None
+    if outs is None or len(outs) != len(mo):
+        return "implementation and model disagree (number of steps)"
+    for k, (a, b) in enumerate(zip(outs, mo)):
+        if b is None:
+            continue
+        a = {x: v for x, v in (a or {}).items() if x not in ("changed",)}
+        if "val" in a and "val" in b:
+            a = {"val": sorted(a["val"] or [])}
+        msg = _cmp_sorted_val(inp, a, b)
+        if msg:
+            return f"step {k + 1} of {len(outs)} ({_step_text(inp['steps'][k])}): {msg}"
+    return None
+
+
+_MODEL_STEP_KEYS = ("do", "obj", "collection", "src", "dst", "file", "audio_dir", "into")
+
+
+def _session_to_model(inp):
+    return {"steps": [{k: st[k] for k in _MODEL_STEP_KEYS if k in st} for st in inp["steps"]]}
 
 
 # ------------------------------------------------------------------ paths that exist on disk
@@ -625,6 +1068,8 @@ OPS = {
     "relocate_many": Op("relocate_many", _impl_relocate_many, holds=_holds_relocate_many, compare=_cmp_list,
                         nontrivial=lambda i, o: any("val" in x for x in o),
                         to_model=_model_args("collection", "save_dir", "load_dirs")),
+    "session": Op("session", _impl_session, holds=_holds_session, compare=_cmp_session, to_model=_session_to_model,
+                  nontrivial=lambda i, o: isinstance(o, dict) and any(isinstance(x, dict) and "val" in x for x in o.get("steps", []))),
     "relocate_chain": Op("relocate_chain", _impl_relocate_chain, holds=_holds_relocate_chain, compare=_cmp_list,
                          nontrivial=lambda i, o: any("val" in x for x in o),
                          to_model=lambda i: {"collection": i["collection"],
@@ -753,7 +1198,7 @@ def _outside_dirs(base):
 
 
 def _pick_how(ctx, rng, who):
-    how = rng.choice(["str", "path"])
+    how = rng.choice(DIR_KINDS_LOAD if who.startswith("load") else DIR_KINDS_SAVE)
     ctx.tally(f"{who} audio_dir as " + how)
     return how
 
@@ -761,17 +1206,28 @@ def _pick_how(ctx, rng, who):
 def _routes_opts(rng):
     """the public route and options of a save / load: mostly soundevent.io with format='aoef'"""
     z = rng.random()
+    o = {}
+    if rng.random() < 0.35:
+        o["build"] = rng.choice(BUILD_HOWS[1:])
+    if rng.random() < 0.15:
+        o["rec_path_as"] = "str"
+    if rng.random() < 0.3:
+        o["target_as"] = rng.choice(["path", "fspath", "pure"])
+    if z < 0.5:
+        return o
     if z < 0.6:
-        return {}
-    if z < 0.7:
-        return {"format": None}
-    if z < 0.8:
-        return {"api": "aoef"}
+        return {"format": None, **o}
+    if z < 0.68:
+        return {"api": "aoef", **o}
+    if z < 0.76:
+        return {"api": rng.choice(["convert", "convert_positional"]), **o}
+    if z < 0.82:
+        return {"api": "positional", **o}
     if z < 0.88:
-        return {"api": "convert"}
+        return {"api": "positional_full", **({"type": True} if rng.random() < 0.5 else {}), **o}
     if z < 0.94:
-        return {"api": "positional"}
-    return {"type": True}
+        return {"api": "aoef_positional", **({"type": True} if rng.random() < 0.5 else {}), **o}
+    return {"type": True, **o}
 
 
 def _collection_cases(ctx, rng, n_per_type):
@@ -813,7 +1269,7 @@ def _collection_cases(ctx, rng, n_per_type):
                 B1, B2 = rng.choice(LOAD_DIRS), rng.choice(LOAD_DIRS)
                 chain.append({"collection": cj, "steps": [
                     {"save_dir": A, "load_dir": B1, "dir_as": hs, "load_as": hl},
-                    {"save_dir": _dir_variant(rng, B1), "load_dir": B2, "dir_as": hl, "load_as": hs},
+                    {"save_dir": _dir_variant(rng, B1), "load_dir": B2, "dir_as": hl, "load_as": hl},
                     {"save_dir": rng.choice([B2, None, "/nowhere"]), "load_dir": None, "dir_as": hs, "load_as": hl}]})
     return stored, reloc, many, chain
 
@@ -937,6 +1393,17 @@ def _route_cases(ctx, rng, reps=1):
                 pre = rng.choice([None, "file", "fresh_dir"])
                 stored.append({"collection": cout, "audio_dir": A, "dir_as": hs, **({"pre": pre} if pre else {})})
                 ctx.tally(f"route {ty}:{route}")
+                # the same route when the collection is an instance of a user-defined subclass of its class (the
+                # adapter is then found by isinstance, not by the exact class), and when it was built by validation
+                # (every occurrence of the recording its own Python object, paths given as str)
+                for how, rp in (("subclass", None), (rng.choice(["validate", "validate_json", "subclass_validate", "copy_deep"]),
+                                                    rng.choice([None, "str"]))):
+                    extra = {"build": how, **({"rec_path_as": rp} if rp else {})}
+                    stored.append({"collection": cin, "audio_dir": A, "dir_as": rng.choice(DIR_KINDS_SAVE), **extra})
+                    stored.append({"collection": cout, "audio_dir": A, "dir_as": rng.choice(DIR_KINDS_SAVE), **extra})
+                    reloc.append({"collection": cin, "save_dir": A, "load_dir": rng.choice(LOAD_DIRS),
+                                  "dir_as": rng.choice(DIR_KINDS_SAVE), "load_as": rng.choice(DIR_KINDS_LOAD), **extra})
+                    ctx.tally(f"route cases built by {how}" + (", paths as str" if rp else ""), 3)
     return stored, reloc
 
 
@@ -1070,6 +1537,174 @@ def _large_cases(ctx):
     return stored, reloc
 
 
+# -- sessions ---------------------------------------------------------------------------------------------------
+def _opts(rng, load=False):
+    """how one save / load of a session is called: directory kind, public route, kind of the file name"""
+    o = {"dir_as": rng.choice(DIR_KINDS_LOAD if load else DIR_KINDS_SAVE), "api": rng.choice(FILE_APIS),
+         "target_as": rng.choice(["str", "str", "path", "fspath", "pure"])}
+    if o["api"] == "io" and rng.random() < 0.2:
+        o["format"] = None
+    return o
+
+
+def _inside_name(rng, base, tag):
+    name = rng.choice(["moved.wav", "ñ moved.wav", " moved ", "sub/moved.wav", "estacio\u0301n.wav"])
+    return str(PurePosixPath(base or ".") / f"{tag}" / name)
+
+
+def _session_templates(ctx, rng, ty, which):
+    """one session of each kind for the collection type `ty` (see HISTORIES.md section 1)"""
+    base = rng.choice(["/data/audio", "/a b/ünï/x.y", "rel/dir", "/data/ audio ", "/", "", "~/audio", "/data/../data/audio"])
+    other = rng.choice(["/mnt/other disk", "elsewhere", "/mnt/b", "//net/x", "~", "/mnt/ b "])
+    third = rng.choice(["/srv/third", "third dir", "/"])
+    A = _dir_variant(rng, base)
+    anc = _dir_variant(rng, rng.choice(_ancestors(base or ".")))
+    outside = rng.choice(_outside_dirs(base))
+    big = PGen(rng, rich=rng.random() < 0.3, base=base, size=1.2, itself=0.0).collection(ty)
+    route = rng.choice(ROUTES[ty])
+    if not _all_recordings(big) or rng.random() < 0.5:
+        big = _route_collection(rng, ty, route, PGen(rng, base=base, itself=0.0, size=0.0).path(3), base)
+    small_ty = ty if rng.random() < 0.7 else rng.choice(aoefgen.TYPES)
+    small = _minimal(rng, small_ty, str(PurePosixPath(base or ".") / "only one.wav"))
+    stray = "/somewhere else/stray.wav" if not base.startswith("/somewhere") else "/x/stray.wav"
+    if base == "/":
+        stray = "relative/stray.wav"
+    bad = _route_collection(rng, ty, rng.choice(ROUTES[ty]), stray, base)
+    recs = _all_recordings(big)
+    P = rng.choice(recs)[1] if recs else None
+    sv = lambda obj, f, d, **kw: {"do": "save", "obj": obj, "file": f, "audio_dir": d, **_opts(rng), **kw}
+    ld = lambda f, d, into, **kw: {"do": "load", "file": f, "audio_dir": d, "into": into, **_opts(rng, load=True), **kw}
+    put = lambda obj, cj, how="ctor", **kw: {"do": "put", "obj": obj, "collection": cj, "how": how, **kw}
+    how = rng.choice(BUILD_HOWS)
+    ctx.tally("session kind: " + which)
+    if which == "same target: longer, shorter, longer":
+        return [put("a", big, how), put("b", small), sv("a", "f", A), ld("f", other, "x"), sv("b", "f", anc),
+                ld("f", third, "y"), sv("a", "f", None), ld("f", None, "z"), sv("b", "f", None), ld("f", other, "w")]
+    if which == "failing save over an existing file":
+        return [put("a", big), put("bad", bad, how), sv("a", "f", A), sv("bad", "f", A), ld("f", other, "x"),
+                sv("a", "f", outside), ld("f", third, "y"), sv("bad", "g", A), sv("a", "g", anc), ld("g", other, "z")]
+    if which == "same objects, other directories and files":
+        return [put("a", big, how), sv("a", "f", A), sv("a", "g", anc), sv("a", "f", None), ld("g", other, "x"),
+                ld("f", other, "y"), sv("a", "g", outside), ld("g", None, "z"), sv("a", "f", A), ld("f", third, "w")]
+    if which == "recording moved after the first save" and P is not None:
+        P2 = _inside_name(rng, base, "m1")
+        P3 = "/moved right out/of it.wav" if base != "/" else "moved right out/of it.wav"
+        h1, h2 = rng.choice(MOVE_HOWS), rng.choice(MOVE_HOWS)
+        return [put("a", big, how), sv("a", "f", A), {"do": "move", "obj": "a", "src": P, "dst": P2, "how": h1},
+                sv("a", "g", A), ld("g", other, "x"), ld("f", other, "y"),
+                {"do": "move", "obj": "a", "src": P2, "dst": P3, "how": h2}, sv("a", "f", A), ld("f", third, "z"),
+                sv("a", "f", None), ld("f", third, "w")]
+    if which == "loaded object changed and saved back" and P is not None:
+        try:
+            rel = PurePosixPath(P).relative_to(PurePosixPath(A))
+        except ValueError:
+            return None
+        Q = str(PurePosixPath(other) / rel)
+        Q2 = _inside_name(rng, other, "m2")
+        return [put("a", big), sv("a", "f", A), ld("f", other, "x"),
+                {"do": "move", "obj": "x", "src": Q, "dst": Q2, "how": rng.choice(MOVE_HOWS)}, sv("x", "f", other),
+                ld("f", third, "y"), sv("y", "g", third), ld("g", None, "z"), sv("a", "f", anc), ld("f", other, "w")]
+    if which == "caller changes a loaded object":
+        return [put("a", big, how), sv("a", "f", A), ld("f", other, "x"), {"do": "poison", "obj": "x"}, ld("f", other, "y"),
+                ld("f", third, "z"), {"do": "poison", "obj": "y"}, ld("f", other, "w"), sv("a", "f", anc), ld("f", other, "v")]
+    if which == "construction paths of one content":
+        hows = rng.sample(BUILD_HOWS, 3)
+        steps = []
+        for i, h in enumerate(hows):
+            steps += [put(f"a{i}", big, h, **({"rec_path_as": "str"} if rng.random() < 0.4 else {})),
+                      sv(f"a{i}", "f", rng.choice([A, anc])), ld("f", rng.choice([other, third]), f"x{i}")]
+        return steps + [sv("a0", "g", outside), sv("a1", "g", None), ld("g", other, "y")]
+    return None
+
+
+SESSION_KINDS = ["same target: longer, shorter, longer", "failing save over an existing file",
+                 "same objects, other directories and files", "recording moved after the first save",
+                 "loaded object changed and saved back", "caller changes a loaded object",
+                 "construction paths of one content"]
+
+
+def _random_session(ctx, rng, ty):
+    """a random walk over the steps, kept inside what the session has (objects that exist, files that were
+    written); three saves in four use a directory that contains every recording of the object"""
+    base = rng.choice(DIRS + ["~/audio"])
+    pool = LOAD_DIRS + [base]
+    steps = [{"do": "put", "obj": "a", "collection": PGen(rng, base=base, size=0.8, itself=0.0).collection(ty),
+              "how": rng.choice(BUILD_HOWS)}]
+    if rng.random() < 0.5:
+        ty2 = ty if rng.random() < 0.6 else rng.choice(aoefgen.TYPES)
+        steps.append({"do": "put", "obj": "b", "collection": PGen(rng, base=base, size=0.5, itself=0.0).collection(ty2),
+                      "how": rng.choice(BUILD_HOWS)})
+    n_into = 0
+    for _ in range(rng.randint(5, 9)):
+        want = _session_oracle(steps)
+        state_paths, files, dead = {}, set(), set()
+        # replay the oracle's bookkeeping (objects alive with their paths, files written)
+        cur = {}
+        for st, w in zip(steps, want):
+            if st["do"] in ("put", "move") and w[0] == "recs":
+                cur[st["obj"]] = w[1]
+            elif st["do"] == "load" and w[0] == "recs":
+                cur[st["into"]] = w[1]
+            elif st["do"] == "save" and w[0] == "stored":
+                files.add(st["file"])
+            elif st["do"] == "poison":
+                cur.pop(st["obj"], None)
+        z = rng.random()
+        if z < 0.45 or not files:
+            k = rng.choice(sorted(cur))
+            cands = [None] + [_dir_variant(rng, d) for d in rng.sample(pool, 4)]
+            inside = [d for d in cands if _want_relocated(cur[k], d, None) is not None]
+            d = rng.choice(inside) if inside and rng.random() < 0.75 else rng.choice(cands)
+            steps.append({"do": "save", "obj": k, "file": rng.choice(["f", "f", "g"]), "audio_dir": d, **_opts(rng)})
+        elif z < 0.8:
+            n_into += 1
+            steps.append({"do": "load", "file": rng.choice(sorted(files)), "audio_dir": rng.choice([None] + rng.sample(pool, 3)),
+                          "into": rng.choice(["x", "y", f"l{n_into}"]), **_opts(rng, load=True)})
+        elif z < 0.93:
+            k = rng.choice(sorted(cur))
+            if cur[k]:
+                src = rng.choice(sorted(cur[k].values()))
+                home = str(PurePosixPath(src).parent)
+                steps.append({"do": "move", "obj": k, "src": src, "dst": _inside_name(rng, home, f"m{len(steps)}"),
+                              "how": rng.choice(MOVE_HOWS)})
+        else:
+            loaded = [k for k in cur if k not in ("a", "b")]
+            if loaded:
+                steps.append({"do": "poison", "obj": rng.choice(sorted(loaded))})
+    ctx.tally("session kind: random walk")
+    return steps
+
+
+def _session_cases(ctx, rng, reps, walks):
+    cases = []
+    for ty in aoefgen.TYPES:
+        for _ in range(reps):
+            for which in SESSION_KINDS:
+                steps = _session_templates(ctx, rng, ty, which)
+                if steps:
+                    cases.append({"steps": steps})
+        for _ in range(walks):
+            cases.append({"steps": _random_session(ctx, rng, ty)})
+    for c in cases:
+        for st in c["steps"]:
+            ctx.tally("session step: " + st["do"] + (" by " + st["how"] if st["do"] in ("put", "move") else ""))
+            if st["do"] in ("save", "load"):
+                ctx.tally(f"session {st['do']}: audio_dir as {st['dir_as']}" if st.get("audio_dir") is not None
+                          else f"session {st['do']}: no audio_dir")
+                ctx.tally(f"session {st['do']}: route {st['api']}, file name as {st['target_as']}")
+    return cases
+
+
+def _wf_sessions(ctx, cases):
+    """the theorems' hypothesis (`WF`) on every content a session puts"""
+    flat = [(i, st["collection"]) for i, c in enumerate(cases) for st in c["steps"] if st["do"] == "put"]
+    oks = ctx.driver.call_many("C01", "wf", [{"collection": cj} for _i, cj in flat])
+    bad = {i for (i, _cj), ok in zip(flat, oks) if not ok}
+    if bad:
+        ctx.tally("generated sessions outside the quantifier (a content not well formed), dropped", len(bad))
+    return [c for i, c in enumerate(cases) if i not in bad]
+
+
 def _mixed_outside(rng):
     """one recording of several lies outside the directory: the whole save must fail"""
     cases = []
@@ -1184,6 +1819,11 @@ def _special(ctx):
         ctx.run_cases(OPS["relocate"], _wf(ctx, reloc))
 
 
+def _sessions(ctx):
+    cases = _session_cases(ctx, ctx.rng, ctx.budget(1, 8), ctx.budget(2, 16))
+    ctx.run_cases(OPS["session"], _wf_sessions(ctx, cases))
+
+
 def run(ctx):
     ctx.stage("tables", _tables, ctx)
     ctx.stage("corpus", ctx.run_corpus, OPS)
@@ -1192,6 +1832,7 @@ def run(ctx):
     ctx.stage("routes", _routes, ctx)
     ctx.stage("on disk / large", _special, ctx)
     ctx.stage("collections", _collections, ctx)
+    ctx.stage("sessions", _sessions, ctx)
 
 
 def search(ctx, failures):
